@@ -6,7 +6,7 @@ From Verif Require Import Sx Str Tok.
 From Verif.Gen Require Import Consts Sanitizer Serializer.
 From Verif.Model Require Import CharRef TokBase Ser C09 C10.
 From Verif.Spec Require Import TokSpec.
-From Verif.Proofs Require Import C09 C10 C08 SpecTac C08tag.
+From Verif.Proofs Require Import C09 C10 C08 SpecTac C08comment C08doctype C08tag.
 Import ListNotations.
 Local Open Scope N_scope.
 
@@ -43,6 +43,8 @@ Definition walker_tok (t : token) : Prop :=
   match t with
   | TChars _ | TStart _ _ _ | TEnd _ _ | TEmpty _ _ _ | TComment _ => True
   | TSpace s => forallb is_space s = true
+  | TDoctype (Some n) pub sys =>
+      dname_ok n = true /\ (nonempty pub = true -> id_ok (oget pub) = true) /\ (nonempty sys = true -> id_ok (oget sys) = true)
   | _ => False
   end.
 
@@ -52,6 +54,7 @@ Proof.
   unfold San. cbn [flat_map]. fold (San default_lists css ts).
   destruct t as [dn dp ds|s|s|ns name a|ns name|ns name a|d|en|er|ty]; cbn [walker_tok] in Ht; try contradiction;
     cbn [sanitize app]; try (constructor; [|apply IH; exact Hts]); try (apply IH; exact Hts).
+  - destruct dn; [exact Ht|contradiction].
   - exact I.
   - exact Ht.
   - destruct (element_allowed default_lists ns name) eqn:Ea; cbn [safe_tok disallowed]; [|exact I].
@@ -80,6 +83,7 @@ Definition from_lists (t : otok) : Prop :=
   | OStart n a _ => (exists k, In k allowed_elements /\ n = lower_str (snd k)) /\
                     Forall (fun kv : str * str => exists k, In k allowed_attributes /\ fst kv = lower_str (snd k)) a
   | OEnd n _ _ => exists k, In k allowed_elements /\ n = lower_str (snd k)
+  | ODoctype _ _ _ _ => True
   | _ => False
   end.
 
@@ -109,6 +113,7 @@ Proof.
     exists (fst x). split; [exact K|reflexivity]. }
   destruct t as [dn dp ds|s|s|ns name a|ns name|ns name a|d|en|er|ty]; cbn [walker_tok] in Ht; try contradiction;
     cbn [sanitize app flat_map]; try (apply IH; exact Hts).
+  - destruct dn; [|contradiction]. cbn [rd_tok app]. constructor; [exact I|apply IH; exact Hts].
   - cbn [rd_tok]. apply Forall_app. split; [apply Hchars|apply IH; exact Hts].
   - cbn [rd_tok]. apply Forall_app. split; [apply Hchars|apply IH; exact Hts].
   - destruct (element_allowed default_lists ns name) eqn:Ea; cbn [disallowed rd_tok app].
